@@ -200,14 +200,18 @@ impl<'a> Evaluator<'a> {
         e.rules.insert("phony".into(), vec![]);
         let mut scope = Scope::new();
         let r = e.file(0, &mut scope);
-        let ext = e.include_extends_used;
         let w = std::mem::take(&mut e.warnings);
         match r {
             Ok(()) => {
                 e.out.builddir = scope.get("builddir").cloned();
+                if e.include_defined.iter().any(|k| k == "builddir") {
+                    // the top-level scope only sees it if `include` extends the including scope (finding F9)
+                    e.include_extends_used = true;
+                }
+                let ext = e.include_extends_used;
                 (Ok(e.out), ext, w)
             }
-            Err(x) => (Err(x), ext, w),
+            Err(x) => (Err(x), e.include_extends_used, w),
         }
     }
 
